@@ -111,6 +111,9 @@ def run(ctx):
             for a, n in s.get("per_action", {}).items():
                 per_act[a] = per_act.get(a, 0) + n
         cov["replayed_steps_per_action_" + kind] = per_act
+        if kind == "icmp":
+            cov["icmp_reply_identifier"] = {"same_as_request": R.total(summ, "reply_ident_same"),
+                                            "kernel_assigned": R.total(summ, "reply_ident_differs")}
         if mism:
             # findings protocol: re-validate the observed history with exactly one deviation enabled (a few distinct classes)
             seen = {}
@@ -159,7 +162,7 @@ def run(ctx):
                                 D.describe(mm), mm)
             # the code must then follow the bare-id relation exactly
             bdoc, bp, bn, be_, bs = D.make_doc(kind, "collideById", cb, rb.edges, cb["Max"])
-            s2, m2 = D.run_docs(ctx, bins[kind], [bdoc], "byid_" + kind, 2 if q else 4, prefix=pfx, env=env)
+            s2, m2 = D.run_docs(ctx, bins[kind], [bdoc], "byid_" + kind, 4 if q else 8, prefix=pfx, env=env)
             tot_paths += R.total(s2, "paths")
             tot_steps += R.total(s2, "steps")
             tot_edges += be_
